@@ -225,6 +225,21 @@ func runC15(col *Collector, tier string, seed int64) {
 	for _, h := range hand {
 		add(loadCase{desc: "hand-written", format: "yaml", text: h, tasks: []string{"t"}, pipes: []string{"p"}}, "degenerate")
 	}
+	// names and descriptions that are not what a listing is laid out for: non-ASCII of every width, very long, with
+	// tabs, format verbs and template syntax; described and undescribed tasks side by side
+	oddNames := []string{"сборка", "构建", "🚀🚀🚀", "é", strings.Repeat("long", 60), "tab\there", "%s%d%!", "{{ .Name }}", "a b", "-", "ﬁ", "e\u0301"}
+	for k := 0; k < len(oddNames); k++ {
+		var doc strings.Builder
+		doc.WriteString("tasks:\n  t:\n    command: [\"true\"]\n    description: plain\n  lint:\n    command: [\"true\"]\n")
+		names := []string{"t"}
+		for j := 0; j <= k%3; j++ {
+			n := oddNames[(k+j*5)%len(oddNames)]
+			fmt.Fprintf(&doc, "  %q:\n    command: [\"true\"]\n    description: %q\n", n, "describes "+oddNames[(k+j+1)%len(oddNames)])
+			names = append(names, n)
+		}
+		fmt.Fprintf(&doc, "pipelines:\n  p:\n    - task: t\n  %q:\n    - task: %q\ncontexts:\n  %q:\n    env: {A: b}\nwatchers:\n  %q:\n    task: t\n    watch: [\"*.go\"]\n", oddNames[k]+"-pipe", names[1], oddNames[k]+"-ctx", oddNames[k]+"-watch")
+		add(loadCase{desc: "names and descriptions a listing is not laid out for", format: "yaml", text: doc.String(), tasks: names, pipes: []string{"p", oddNames[k] + "-pipe"}}, "odd-names")
+	}
 	for _, h := range []string{"", "{}", "[]", "null", "{\"tasks\": null}", "{\"tasks\": {\"t\": null}}", "{\"pipelines\": {\"p\": [null]}}", "{\"import\": \"x\"}", "{\"tasks\": {\"t\": {\"command\": 5}}}"} {
 		add(loadCase{desc: "hand-written", format: "json", text: h, tasks: []string{"t"}, pipes: []string{"p"}}, "degenerate")
 	}
